@@ -5,8 +5,8 @@ from vp import *
 qc = lambda d: d[2]
 qn = lambda d: d[3]
 qb = lambda d: d[0] > 0.5
-MKS = [(lambda: H.Label(a=H.Sum(qy), b=H.Sum(qy))), (lambda: H.Label(a=H.Average(qy), b=H.Average(qy))), (lambda: H.Label(a=H.Bin(2, 0.0, 2.0, qy), b=H.Bin(2, 0.0, 2.0, qy))), (lambda: H.Label(a=H.Bin(3, 0.0, 2.0, qy), b=H.Bin(3, 0.0, 2.0, qy))), (lambda: H.Label(a=H.Minimize(qy), b=H.Minimize(qy))), (lambda: H.Label(a=H.Count(), b=H.Count()))]
-TYPES = ['H.Sum', 'H.Average', 'H.Bin', 'H.Bin', 'H.Minimize', 'H.Count']
+MKS = [(lambda: H.Label(a=H.Sum(qy), b=H.Sum(qy))), (lambda: H.Label(a=H.Average(qy), b=H.Average(qy))), (lambda: H.Label(a=H.Bin(2, 0.0, 2.0, qy), b=H.Bin(2, 0.0, 2.0, qy))), (lambda: H.Label(a=H.Bin(3, 0.0, 2.0, qy), b=H.Bin(3, 0.0, 2.0, qy)))]
+TYPES = ['H.Sum', 'H.Average', 'H.Bin', 'H.Bin']
 VARIANT = 'live'
 
 def body(T, k1, k2, x1, x2, c2):
@@ -43,14 +43,14 @@ def body(T, k1, k2, x1, x2, c2):
 
 def h(k1: int, k2: int, x1: float, x2: float, c2: int) -> str:
     """
-    pre: 0 <= k1 < 6 and 0 <= k2 < 6 and -2.0 <= x1 < 2.0 and -2.0 <= x2 < 2.0 and 0 <= c2 <= 1
+    pre: 0 <= k1 < 4 and 0 <= k2 < 4 and -2.0 <= x1 < 2.0 and -2.0 <= x2 < 2.0 and 0 <= c2 <= 1
     post: _ == ""
     """
     return body(False, k1, k2, x1, x2, c2)
 
 def reach(k1: int, k2: int, x1: float, x2: float, c2: int) -> str:
     """
-    pre: 0 <= k1 < 6 and 0 <= k2 < 6 and -2.0 <= x1 < 2.0 and -2.0 <= x2 < 2.0 and 0 <= c2 <= 1
+    pre: 0 <= k1 < 4 and 0 <= k2 < 4 and -2.0 <= x1 < 2.0 and -2.0 <= x2 < 2.0 and 0 <= c2 <= 1
     post: _ != "REACHED"
     """
     return body(True, k1, k2, x1, x2, c2)
@@ -59,7 +59,7 @@ def reach(k1: int, k2: int, x1: float, x2: float, c2: int) -> str:
 if __name__ == "__main__":
     import traceback
     try:
-        _r = h(0, 4, 0.0, 0.0, 0)
+        _r = h(1, 2, 0.0, 0.0, 1)
     except Exception as _e:
         traceback.print_exc()
         print("REPLAY-RESULT: EXC:" + type(_e).__name__)
